@@ -374,7 +374,32 @@ func c01SiteClass(id string) string {
 	return id
 }
 
+// c01RunCase runs the case; a difference is reported only if it shows up again when the
+// whole case is executed a second time (a difference that does not reproduce is a
+// harness error: the executions were disturbed by something the harness does not own).
 func c01RunCase(c *mc.Ctx, ops []string, thorough bool) {
+	type v struct {
+		what string
+		rep  interface{}
+	}
+	first := map[string]v{}
+	c01RunCaseOnce(c, ops, thorough, func(sig, what string, rep interface{}) { first[sig] = v{what, rep} })
+	if len(first) == 0 {
+		return
+	}
+	second := map[string]bool{}
+	silent := mc.Dummy()
+	c01RunCaseOnce(silent, ops, thorough, func(sig, what string, rep interface{}) { second[sig] = true })
+	for sig, x := range first {
+		if second[sig] {
+			c.Report(sig, x.what, x.rep)
+		} else {
+			c.HarnessError(fmt.Sprintf("C01: difference %s on history [%s] did not reproduce on a second execution of the case", sig, strings.Join(ops, ",")))
+		}
+	}
+}
+
+func c01RunCaseOnce(c *mc.Ctx, ops []string, thorough bool, report func(sig, what string, rep interface{})) {
 	young := ops[0] == "young"
 	hist := ops
 	if young {
@@ -465,7 +490,7 @@ func c01RunCase(c *mc.Ctx, ops []string, thorough bool) {
 			if genesisGap {
 				sig = "C01|restart|between-genesis-and-first-block|" + first
 			}
-			c.Report(sig, fmt.Sprintf("last block of history [%s] gives different %s when %s (reference: %s)", desc, strings.Join(df, ", "), how, "node restarted just before the block, ascending map order, forked sections in program order"), rep)
+			report(sig, fmt.Sprintf("last block of history [%s] gives different %s when %s (reference: %s)", desc, strings.Join(df, ", "), how, "node restarted just before the block, ascending map order, forked sections in program order"), rep)
 		}
 	}
 	// reference: cold default
@@ -495,7 +520,7 @@ func c01RunCase(c *mc.Ctx, ops []string, thorough bool) {
 			same = same && txs2[i].GetHash().String() == txHashes[i]
 		}
 		if !same {
-			c.Report("C01|restart|history-diverged", fmt.Sprintf("history [%s]: after a restart before block %d of the history the state offers a different last block (an earlier block executed differently)", desc, j+1), rep)
+			report("C01|restart|history-diverged", fmt.Sprintf("history [%s]: after a restart before block %d of the history the state offers a different last block (an earlier block executed differently)", desc, j+1), rep)
 			in2.w.R.Close()
 			continue
 		}
